@@ -37,6 +37,7 @@ Definition gstep (x : pstate * ghost) (a : paction) : pstate * ghost :=
     | Some W3 => (s', G (p_db s) (g_adm g))
     | _ => (s', g)
     end
+  | AE => (s', g)
   end.
 
 (* readers that do not consult the cache start active: admissible = the initial value *)
@@ -46,9 +47,10 @@ Definition grun (x : pstate * ghost) (sched : list paction) : pstate * ghost := 
 
 Lemma gstep_fst x a : fst (gstep x a) = pstep TicketLocked (fst x) a.
 Proof.
-  destruct x as [s g]. unfold gstep. cbn [fst]. destruct a as [i|j].
+  destruct x as [s g]. unfold gstep. cbn [fst]. destruct a as [i|j|].
   - destruct (nth_error (p_readers s) i) as [[| | | | | |]|]; reflexivity.
   - destruct (nth_error (p_writers s) j) as [[| | | |]|]; reflexivity.
+  - reflexivity.
 Qed.
 
 Theorem grun_projects d rs ws sched : fst (grun (ginit d rs ws) sched) = prun TicketLocked (pinit d rs ws) sched.
@@ -210,6 +212,16 @@ Proof.
   - replace (step_writer s j) with s by (unfold step_writer; rewrite E; reflexivity). constructor; cbn [fst snd]; assumption.
 Qed.
 
+Lemma evict_gkeeps x : GInv x -> GInv (gstep x AE).
+Proof.
+  destruct x as [s g]. intros [I Hst Hc Hr]. cbn [fst snd] in *.
+  unfold gstep. cbn [pstep]. constructor; cbn [fst snd evict_cache p_db p_cache p_readers p_writers].
+  - apply evict_keeps. exact I.
+  - exact Hst.
+  - left. reflexivity.
+  - intros i r Hi. specialize (Hr i r Hi). destruct r; exact Hr.
+Qed.
+
 Theorem reads_are_regular d rs ws sched :
   let x := grun (ginit d rs ws) sched in
   forall i v, nth_error (p_readers (fst x)) i = Some (RDone v) -> In v (g_adm (snd x) i).
@@ -217,7 +229,7 @@ Proof.
   cbv zeta.
   assert (G0 : forall sched x, GInv x -> GInv (grun x sched)).
   { induction sched0 as [|a rest IH]; intros x Hx; [exact Hx|]. unfold grun. cbn [fold_left]. apply IH.
-    destruct a; [apply reader_gkeeps | apply writer_gkeeps]; exact Hx. }
+    destruct a; [apply reader_gkeeps | apply writer_gkeeps | apply evict_gkeeps]; exact Hx. }
   pose proof (G0 sched _ (ginit_inv d rs ws)) as [_ _ _ Hr]. intros i v Hi. exact (Hr i _ Hi).
 Qed.
 
